@@ -1,9 +1,69 @@
 import PyamgV.Driver.Util
-/-! Driver ops for property C06 (line protocol). Op names are prefixed `c06_`. -/
+import PyamgV.Model.C06Krylov
+/-! Driver ops for property C06 (line protocol). Op names are prefixed `c06_`.
+
+`c06_run <solver> <r|c> <A> <M> <b> <x0> <crit> <tol2> <maxiter>` (matrices: rows separated by `;`)
+  → `<status> <res2 list> <x> <log: iterates separated by ;>`
+`c06_gctl <late 0|1> <n> <restart|_> <maxiter|_> <conv0 0|1> <gtest bits> <rtest bits> <stag bits>`
+  → `short` | `<status> <niter> <ncb> <maxInner> <maxOuter>` -/
 namespace PyamgV.Drv.C06
-open PyamgV PyamgV.Drv
+open PyamgV PyamgV.Drv PyamgV.C06
+
+def critOf (s : String) : Option Crit :=
+  match s with
+  | "rr" => some .rr | "rr+" => some .rrp | "MrMr" => some .MrMr | "rMr" => some .rMr | _ => none
+
+def parseMatC (s : String) : Array (Array CRat) :=
+  if s = "-" then #[] else (s.splitOn ";").toArray.map parseCRats
+
+def showRes {K : Type} (sh : Array K → String) (r : Res K) : String :=
+  let log := if r.log.isEmpty then "-" else String.intercalate ";" (r.log.map fun v => sh v.toArray)
+  s!"{r.status} {showRats r.res2.toArray} {sh r.x.toArray} {log}"
+
+def runR (name : String) (A M : Mat Rat) (b x0 : Vec Rat) (c : Crit) (tol2 : Rat) (mi : Nat) : Option (Res Rat) :=
+  match name with
+  | "cg" => some (cg A M b x0 c tol2 mi)
+  | "cr" => some (cr A M b x0 c tol2 mi)
+  | "cgne" => some (cgne A M b x0 c tol2 mi)
+  | "cgnr" => some (cgnr A M b x0 c tol2 mi)
+  | "bicgstab" => some (bicgstab A M b x0 c tol2 mi)
+  | "steepest_descent" => some (steepestDescent A M b x0 c tol2 mi)
+  | "minimal_residual" => some (minimalResidual A M b x0 tol2 mi)
+  | _ => none
+
+def runC (name : String) (A M : Mat CRat) (b x0 : Vec CRat) (c : Crit) (tol2 : Rat) (mi : Nat) : Option (Res CRat) :=
+  match name with
+  | "cg" => some (cg A M b x0 c tol2 mi)
+  | "cr" => some (cr A M b x0 c tol2 mi)
+  | "cgne" => some (cgne A M b x0 c tol2 mi)
+  | "cgnr" => some (cgnr A M b x0 c tol2 mi)
+  | "bicgstab" => some (bicgstab A M b x0 c tol2 mi)
+  | "steepest_descent" => some (steepestDescent A M b x0 c tol2 mi)
+  | "minimal_residual" => some (minimalResidual A M b x0 tol2 mi)
+  | _ => none
+
+def optNat (s : String) : Option Nat := if s = "_" then none else s.toNat?
+def bits (s : String) : Nat → Bool := fun k => (s.toList.getD (k - 1) '0') = '1' && k ≥ 1
 
 def handle : List String → Option String
+  | ["c06_run", name, fld, a, m, b, x0, crit, tol2, mi] =>
+    match critOf crit with
+    | none => some "bad-crit"
+    | some c =>
+      if nat mi < 1 then some "reject" else
+      if fld = "c" then
+        let A := (parseMatC a).toList.map (·.toList)
+        let M := (parseMatC m).toList.map (·.toList)
+        (runC name A M (parseCRats b).toList (parseCRats x0).toList c (parseRat tol2) (nat mi)).map (showRes showCRats)
+      else
+        let A := (parseMat a).toList.map (·.toList)
+        let M := (parseMat m).toList.map (·.toList)
+        (runR name A M (parseRats b).toList (parseRats x0).toList c (parseRat tol2) (nat mi)).map (showRes showRats)
+  | ["c06_gctl", late, n, restart, maxiter, conv0, g, r, st] =>
+    let d := gmresDims (nat n) (optNat restart) (optNat maxiter)
+    match gmresCtl (late = "1") (nat n) (optNat restart) (optNat maxiter) (conv0 = "1") (bits g) (bits r) (bits st) with
+    | none => some "short"
+    | some o => some s!"{o.status} {o.niter} {o.ncb} {d.maxInner} {d.maxOuter}"
   | _ => none
 
 end PyamgV.Drv.C06
